@@ -90,7 +90,14 @@ const FIXED_SITES: [(f64, f64, f64); 40] = [
 ];
 
 impl C09 {
-    fn boundary_directed(&self, c: &Case, st: &mut Stats) -> Result<(), Failure> {
+    fn boundary_directed(&self, c0: &Case, st: &mut Stats) -> Result<(), Failure> {
+        // At the very edge of existence a one-ulp difference of the Julian Day decides validity. The library reaches a
+        // candidate day as JD(date) -+ k, the model as JD(date -+ k); these are the same double only when
+        // day - gmt/24 is computed exactly, i.e. when the offset is a multiple of 3 h (1/8 day). The directed cases
+        // therefore use the nearest such offset (still within 1.5 h of the generated one).
+        let mut c = c0.clone();
+        c.site.gmt = F((3.0 * (c0.site.gmt.0 / 3.0).round()).clamp(-12.0, 12.0));
+        let c = &c;
         let spec = ParamSpec::plain(c.method);
         let params_none = spec.build();
         let conv = compute_p(&c.site, &params_none, c.date, None);
